@@ -28,6 +28,12 @@ def main():
     if st:
         print("refusing: /repo is dirty:\n" + st)
         return 2
+    import shutil
+    import tempfile
+    evid = os.path.join(VERIF, "evidence")
+    keep = tempfile.mkdtemp(prefix="evid-keep-", dir="/dev/shm")
+    if os.path.isdir(evid):
+        shutil.copytree(evid, os.path.join(keep, "evidence"))
     try:
         if spec[0] == "--revert":
             d = subprocess.run(["git", "-C", REPO, "show", spec[1]], capture_output=True, text=True).stdout
@@ -73,6 +79,11 @@ def main():
     finally:
         subprocess.run(["git", "-C", REPO, "checkout", "--", "."])
         subprocess.run(["git", "-C", REPO, "clean", "-fdq"])
+        # evidence written while the mutant was planted does not describe the unchanged tree
+        if os.path.isdir(os.path.join(keep, "evidence")):
+            shutil.rmtree(evid, ignore_errors=True)
+            shutil.copytree(os.path.join(keep, "evidence"), evid)
+        shutil.rmtree(keep, ignore_errors=True)
         # restore evidence of the unchanged tree is the caller's business
 
 
